@@ -1,14 +1,199 @@
 import Crv.Driver.Util
-/-! Line-protocol driver for stream `conf` (stub: every op is `bad-op` until the model is wired in). -/
-namespace Crv.Driver.Conf
+import Crv.Config
+import Crv.Generated.Config
+/-!
+Line-protocol driver for stream `conf` (C19).
 
-/-- Model state carried between the lines of this stream. -/
+    conf caddyfile <env> <token tree>      -- UnmarshalCaddyfile + Provision
+    conf json      <env> <raw config>      -- json.Unmarshal (done by the harness) + Provision
+
+    <env>   = D=[dirs] F=[files] U=[<dur string>:<ns>|x …] C=[readable cert files] L=[acceptable CRL locations]
+    <tree>  = <n> item^n ; item = e <key> <nargs> <arg>^nargs (n | b <tree>)
+    <raw>   = m=<s> crl=<0|1> wd=<s> st=<s> iv=<s> sg=<s> urls=[…] files=[…] sgn=[…] cdp=<0|1> fm=<s> cs=<0|1>
+              ocsp=<0|1> cd=<s> rs=[…] as=<0|1>
+
+Strings are lower-case hex of their UTF-8 bytes, `-` for the empty string; lists are `[a,b,…]`.
+Answer: `ok mode=… crl=… ocsp=…` | `error-unmarshal` | `error-provision` | `panic-unmarshal` | `panic-provision` | `bad-op`.
+-/
+namespace Crv.Driver.Conf
+open Crv Crv.Config Crv.Driver
+
 structure State where
   dummy : Unit := ()
 
 def init : State := {}
 
+def str? (h : String) : Option String :=
+  match parseHex h with
+  | some bs => String.fromUTF8? ⟨bs.toArray⟩
+  | none => none
+
+def strHex (s : String) : String := toHex s.toUTF8.toList
+
+def allSome {α : Type} : List (Option α) → Option (List α)
+  | [] => some []
+  | none :: _ => none
+  | some a :: rest => (allSome rest).map (a :: ·)
+
+/-- `[a,b,c]` → items (raw). -/
+def listItems (s : String) : Option (List String) :=
+  if s.startsWith "[" && s.endsWith "]" then
+    let inner := ((s.drop 1).dropEnd 1).toString
+    if inner.isEmpty then some [] else some (inner.splitOn ",")
+  else none
+
+def strList? (s : String) : Option (List String) :=
+  match listItems s with
+  | some items => allSome (items.map str?)
+  | none => none
+
+def field? (pre : String) (w : String) : Option String :=
+  if w.startsWith pre then some (w.drop pre.length).toString else none
+
+def bit? (s : String) : Option Bool :=
+  if s = "1" then some true else if s = "0" then some false else none
+
+def durItem? (s : String) : Option (String × Option Int) :=
+  match s.splitOn ":" with
+  | [h, v] =>
+    match str? h with
+    | some k => if v = "x" then some (k, none) else (v.toInt?).map (fun n => (k, some n))
+    | none => none
+  | _ => none
+
+def assoc {β : Type} (k : String) : List (String × β) → Option β
+  | [] => none
+  | (k', v) :: rest => if k = k' then some v else assoc k rest
+
+def parseEnv (d f u c l : String) : Option Env := do
+  let dirs ← (field? "D=" d).bind strList?
+  let files ← (field? "F=" f).bind strList?
+  let durs ← ((field? "U=" u).bind listItems).bind (fun items => allSome (items.map durItem?))
+  let certs ← (field? "C=" c).bind strList?
+  let crls ← (field? "L=" l).bind strList?
+  pure { path := fun p => if dirs.contains p then .dir else if files.contains p then .file else .missing
+         dur := fun s => (assoc s durs).join
+         certOk := fun p => certs.contains p
+         crlOk := fun p => crls.contains p }
+
+def takeStrs : Nat → List String → Option (List String × List String)
+  | 0, ws => some ([], ws)
+  | n+1, w :: ws => do
+    let s ← str? w
+    let (more, rest) ← takeStrs n ws
+    pure (s :: more, rest)
+  | _+1, [] => none
+
+/-- `fuel` bounds the recursion depth (every call consumes at least one word). -/
+def parseItems : Nat → Nat → List String → Option (List Tok × List String)
+  | 0, _, _ => none
+  | _+1, 0, ws => some ([], ws)
+  | fuel+1, n+1, ws =>
+    match ws with
+    | "e" :: k :: na :: rest => do
+      let key ← str? k
+      let nargs ← na.toNat?
+      let (args, rest1) ← takeStrs nargs rest
+      match rest1 with
+      | "n" :: rest2 => do
+        let (more, r) ← parseItems fuel n rest2
+        pure (.entry key args none :: more, r)
+      | "b" :: cnt :: rest2 => do
+        let c ← cnt.toNat?
+        let (sub, r2) ← parseItems fuel c rest2
+        let (more, r3) ← parseItems fuel n r2
+        pure (.entry key args (some sub) :: more, r3)
+      | _ => none
+    | _ => none
+
+def parseTree (ws : List String) : Option (List Tok) :=
+  match ws with
+  | cnt :: rest =>
+    match cnt.toNat? with
+    | some n =>
+      match parseItems (ws.length + 1) n rest with
+      | some (toks, []) => some toks
+      | _ => none
+    | none => none
+  | [] => none
+
+def parseRaw (ws : List String) : Option RawCfg :=
+  match ws with
+  | [m, crl, wd, st, iv, sg, urls, files, sgn, cdp, fm, cs, ocsp, cd, rs, as] => do
+    let m ← (field? "m=" m).bind str?
+    let crl ← (field? "crl=" crl).bind bit?
+    let wd ← (field? "wd=" wd).bind str?
+    let st ← (field? "st=" st).bind str?
+    let iv ← (field? "iv=" iv).bind str?
+    let sg ← (field? "sg=" sg).bind str?
+    let urls ← (field? "urls=" urls).bind strList?
+    let files ← (field? "files=" files).bind strList?
+    let sgn ← (field? "sgn=" sgn).bind strList?
+    let cdp ← (field? "cdp=" cdp).bind bit?
+    let fm ← (field? "fm=" fm).bind str?
+    let cs ← (field? "cs=" cs).bind bit?
+    let ocsp ← (field? "ocsp=" ocsp).bind bit?
+    let cd ← (field? "cd=" cd).bind str?
+    let rs ← (field? "rs=" rs).bind strList?
+    let as ← (field? "as=" as).bind bit?
+    pure { mode := m
+           crl := if crl then some { workDir := wd, storage := st, interval := iv, sigMode := sg, urls := urls, files := files,
+                                     signers := sgn, cdp := if cdp then some { fetchMode := fm, strict := cs } else none } else none
+           ocsp := if ocsp then some { cacheDuration := cd, responders := rs, aiaStrict := as } else none }
+  | _ => none
+
+def modeStr : Mode → String
+  | .preferOCSP => "prefer_ocsp" | .preferCRL => "prefer_crl" | .crlOnly => "crl_only"
+  | .ocspOnly => "ocsp_only" | .disabled => "disabled"
+def storageStr : Storage → String
+  | .memory => "memory" | .disk => "disk"
+def sigStr : SigMode → String
+  | .none => "none" | .verifyLog => "verify_log" | .verify => "verify"
+def fetchStr : FetchMode → String
+  | .actively => "fetch_actively" | .background => "fetch_background"
+def boolStr (b : Bool) : String := if b then "true" else "false"
+def listStr (l : List String) : String := "[" ++ ",".intercalate (l.map strHex) ++ "]"
+
+def cdpStr : Option EffCdp → String
+  | none => "nil"
+  | some c => "{" ++ fetchStr c.fetchMode ++ "," ++ boolStr c.strict ++ "}"
+
+def crlStr : Option EffCrl → String
+  | none => "nil"
+  | some c => "{wd=" ++ strHex c.workDir ++ " st=" ++ storageStr c.storage ++ " iv=" ++ toString c.intervalNs ++
+      " sg=" ++ sigStr c.sigMode ++ " urls=" ++ listStr c.urls ++ " files=" ++ listStr c.files ++
+      " sgn=" ++ listStr c.signers ++ " cdp=" ++ cdpStr c.cdp ++ "}"
+
+def ocspStr : Option EffOcsp → String
+  | none => "nil"
+  | some o => "{cd=" ++ toString o.cacheNs ++ " rs=" ++ listStr o.responders ++ " as=" ++ boolStr o.aiaStrict ++ "}"
+
+def effStr (e : Effective) : String :=
+  "ok mode=" ++ modeStr e.mode ++ " crl=" ++ crlStr e.crl ++ " ocsp=" ++ ocspStr e.ocsp
+
+def provisionStr (env : Env) (st : VState) : String :=
+  match provision Generated.configFacts.load env st with
+  | .ok st' => effStr st'.effective
+  | .error => "error-provision"
+  | .panic => "panic-provision"
+
+def answer (ws : List String) : String :=
+  match ws with
+  | "caddyfile" :: d :: f :: u :: c :: l :: tree =>
+    match parseEnv d f u c l, parseTree tree with
+    | some env, some toks =>
+      match unmarshalCaddyfile Generated.configFacts env toks with
+      | .ok st => provisionStr env st
+      | .error => "error-unmarshal"
+      | .panic => "panic-unmarshal"
+    | _, _ => "bad-op"
+  | "json" :: d :: f :: u :: c :: l :: raw =>
+    match parseEnv d f u c l, parseRaw raw with
+    | some env, some r => provisionStr env { VState.zero Generated.configFacts.load with raw := r }
+    | _, _ => "bad-op"
+  | _ => "bad-op"
+
 /-- One line (already split into words, stream tag removed) → new state and the answer line. -/
-def step (s : State) (ws : List String) : State × String := (s, "bad-op")
+def step (s : State) (ws : List String) : State × String := (s, answer ws)
 
 end Crv.Driver.Conf
